@@ -659,13 +659,13 @@ def doc_block(r):
 
 
 def rule_for(r, doc_, mode="typed", cast_p=0, max_len=4, cond_depth=2, with_doc=False,
-             want_str=False, jsonable=False, meaningful=False, prim_only=False):
+             want_str=False, jsonable=False, meaningful=False, prim_only=False, labels=False):
     cast = None
     if cast_p and r.pct() < cast_p:
         cast = r.choice(["bool", "int"])
     p = guided_path(r, doc_, max_len=max_len, mode=mode, want_str=bool(cast) or want_str, prim_only=prim_only,
                     min_len=1 if cast else 0, end_str=bool(cast), miss=8 if cast else 18,
-                    meaningful=meaningful, jsonable=jsonable)
+                    meaningful=meaningful, jsonable=jsonable, labels=labels)
     if cast and r.pct() < 80:
         # cast-directed: declare the cast that some selected string can take
         strs_ = [v for v, _ in model.ref_select(p.parts, doc_) if isinstance(v, str)]
